@@ -494,7 +494,7 @@ def run(ctx):
         else:
             out = ctx.run_lines(h, cs, env=env, timeout=3000)[1]
         for n, o in enumerate(out):
-            if o.endswith('TIMEOUT') and not os.environ.get('VERIF_NO_RETRY'):
+            if o.endswith('TIMEOUT') and stats.get('timeouts_retried', 0) < 2 and not os.environ.get('VERIF_NO_RETRY'):
                 # a loaded machine can starve 17 threads for 20 s: once more, alone, with a long watchdog
                 stats['timeouts_retried'] = stats.get('timeouts_retried', 0) + 1
                 r2 = ctx.run_lines(h, [cs[n]], env=dict(env, H_TIMEOUT='150'), timeout=400)[1]
